@@ -157,7 +157,7 @@ template <class Gr> static bool runDijkstra(const Gr &g0, const std::string &ver
     std::string r = guard([&] {
         auto res = algorithms::findGeodesicsDijkstra(g, s);
         std::string d; bool first = true;
-        for (double x : res.first) { if (!first) d += " "; first = false; d += (g_wscale == 1.0L || !std::isfinite(x)) ? showQuarter(x) : std::to_string(std::llround((long double)x / g_wscale * 4.0L)); }
+        for (double x : res.first) { if (!first) d += " "; first = false; d += showW(x); }
         body = "P dist: " + d + " | pred: " + joinSeq(res.second) + " | scans: " + std::to_string(g.log.size()) + showVE(g0) + "\n";
         return std::string("ok");
     });
